@@ -153,6 +153,9 @@ def rule_R3(ck):
                 if not errs:
                     ck.violation(where, f"{'odd' if cell.par == 1 and inside else 'out-of-reach'} distances {cell} are accepted silently (the displacement would wrap or truncate)",
                                  construct=f"offset {width} {unsigned} {'parity' if cell.par == 1 and inside else 'bounds'}", expected="error", found="accepted")
+                elif val is None or not (isinstance(val, int) or (is_sym(val) and sym.kind(val) in ("int", "bool", "any"))):
+                    ck.violation(where, f"distances {cell} are refused ({errs[0]}), but the field then has the value {val!r}: the opcode is still put together (further diagnostics in the same run) "
+                                        "and dies on a value that is not a number", construct=f"offset {width} {unsigned} value after the error")
         if not any(True for _ in paths):
             raise Unknown("no paths")
 
